@@ -230,9 +230,26 @@ impl ReassignmentPath {
     }
 }
 
+impl Dependencies for ReassignmentPath {
+    fn dependencies(&self) -> Vec<super::Dependency> {
+        match self {
+            Self::Ident(ident) => ident.net_dependencies(),
+            Self::ReferenceToSelf(_) => vec![],
+            Self::Index { lhs, index } => {
+                let mut result = lhs.net_dependencies();
+                result.append(&mut index.net_dependencies());
+                result
+            }
+            Self::DotLookup { lhs, .. } => lhs.net_dependencies(),
+        }
+    }
+}
+
 impl Dependencies for Reassignment {
     fn dependencies(&self) -> Vec<super::Dependency> {
-        self.value.net_dependencies()
+        let mut result = self.path.net_dependencies();
+        result.append(&mut self.value.net_dependencies());
+        result
     }
 }
 
